@@ -325,7 +325,7 @@ class ArtifactCheck(HistCheck):
         return {'logic': case['hist']['logic']}
 
 
-def stale_arith_uf_arg(case, upto):
+def stale_arith_uf_arg(case, upto, any_live_occurrence=False):
     """Cause feature: some numeric variable is a direct argument of an uninterpreted function in a live assertion while its
     only arithmetic constraints (occurrences under + - * / comparisons) are in *popped* assertions. The LA solver then still
     knows the variable (solver variables are never removed) and gives it a value, but it is no longer treated as a variable
@@ -351,17 +351,20 @@ def stale_arith_uf_arg(case, upto):
         if head is None:
             walk(e[0], out_arith, out_ufarg)
     levels = [[]]
+    live_refs = [[]]
     popped_arith = set()
     for c in h['commands'][:upto + 1]:
         if c.get('fault'):
             continue
         if c['k'] == 'push':
             levels += [[] for _ in range(c['n'])]
+            live_refs += [[] for _ in range(c['n'])]
         elif c['k'] == 'pop' and c['n'] < len(levels):
             for lv in levels[len(levels) - c['n']:]:
                 for (ar, ua) in lv:
                     popped_arith |= ar
             del levels[len(levels) - c['n']:]
+            del live_refs[len(live_refs) - c['n']:]
         elif c['k'] == 'assert':
             ar, ua = set(), set()
             try:
@@ -369,8 +372,20 @@ def stale_arith_uf_arg(case, upto):
             except sexpr.SexprError:
                 pass
             levels[-1].append((ar, ua))
+            live_refs[-1].append(c['ref'])
     live_arith = set().union(*[ar for lv in levels for (ar, ua) in lv]) if any(levels) else set()
     live_ufarg = set().union(*[ua for lv in levels for (ar, ua) in lv]) if any(levels) else set()
+    if any_live_occurrence:
+        # wider form: the stale LA variable occurs anywhere in a live assertion (argument of an uninterpreted function, or
+        # compared by = / distinct with a term of an uninterpreted function) without any live arithmetic constraint
+        live_any = set()
+        for c in h['commands'][:upto + 1]:
+            pass
+        toks = set()
+        for lv in live_refs:
+            for t in lv:
+                toks.update(t.replace('(', ' ').replace(')', ' ').split())
+        return bool(((toks & numvars) & popped_arith) - live_arith)
     return bool((live_ufarg & popped_arith) - live_arith)
 
 
@@ -433,6 +448,7 @@ class C03(ArtifactCheck):
                 # table of an uninterpreted function with a Boolean argument
                 'stale_arith_uf_arg': stale_arith_uf_arg(case, v['index']),
                 'popped_numeric_uf_app': popped_numeric_uf_app(case, v['index']),
+                'stale_la_var': stale_arith_uf_arg(case, v['index'], any_live_occurrence=True),
                 'bool_abstract_value': any(o and re.search(r'\(as @\w+ Bool\)', o) for o in getattr(self, '_outs', []) or []),
                 # an assertion level was pushed at some point (a popped level still leaves its activation variable in the SAT solver)
                 'pushed': any(c['k'] == 'push' for c in case['hist']['commands'])}
@@ -504,9 +520,30 @@ class C08(ArtifactCheck):
 
     def signature(self, case, v, ctx=None):
         opt = {o[0]: o[1] for o in case['options']}
+        # n-ary distinct among the live assertions (the EUF interpolator colours a distinction atom as a whole)
+        snap = hist.snapshots(case['hist']['commands'])[v['index']]
+        nary = False
+        for a in (snap['asserts'] if snap else []):
+            for m in re.finditer(r'\(distinct ', a['ref']):
+                depth, k, n = 0, m.end(), 0
+                while k < len(a['ref']):
+                    ch = a['ref'][k]
+                    if ch == '(':
+                        if depth == 0:
+                            n += 1
+                        depth += 1
+                    elif ch == ')':
+                        if depth == 0:
+                            break
+                        depth -= 1
+                    elif ch not in ' ' and depth == 0 and (a['ref'][k - 1] in ' '):
+                        n += 1
+                    k += 1
+                if n >= 3:
+                    nary = True
         return {'logic': case['hist']['logic'], 'after_pop': any(c['k'] == 'pop' for c in case['hist']['commands'][:v['index']]),
                 'alias': alias_feature(self, ctx, case, v['index']), 'group_simplifies': group_simplifies(self, ctx, case, v['index']),
-                'lra_alg': opt.get(':interpolation-lra-algorithm')}
+                'lra_alg': opt.get(':interpolation-lra-algorithm'), 'euf_alg': opt.get(':interpolation-euf-algorithm'), 'nary_distinct': nary}
 
 
 class C09(C08):
